@@ -767,6 +767,11 @@ pub fn run(prop: Prop, tier: Tier) -> i32 {
             for form in forms {
                 match guard(|| prepare(d, *form)) {
                     Ok(Ok(c)) => {
+                        if prop == Prop::C02 && c.keys.len() > 6 {
+                            // wide multisigs: the witness-existence search does not scale; C01 / C09 / C13 / C17 cover them
+                            bump(&mut cen, "wide_descriptors_skipped");
+                            continue;
+                        }
                         bump(&mut cen, "descriptors");
                         if c.sane {
                             bump(&mut cen, "descriptors_sane");
